@@ -573,8 +573,55 @@ func (w *decWalker) applyVarint(acc ast.Expr, T types.Type) error {
 }
 
 // stmts interprets the statements of an arm (or alternative).
+// normVarint rewrites the bounded form of the varint reader
+//
+//	shift := uint(0); for ; shift < 64; shift += 7 { <body> }; if shift >= 64 { return overflow }
+//
+// into the form the matcher knows (`for shift := uint(0); ; shift += 7 { if shift >= 64 { return overflow }; <body> }`).
+// The two are equivalent: the body is entered only while shift < 64; leaving through the loop condition means the
+// last byte read still had its continuation bit and shift is now >= 64 (overflow), leaving through the body's break
+// leaves shift < 64. shift may not be used afterwards.
+func (w *decWalker) normVarint(list []ast.Stmt) []ast.Stmt {
+	info := w.info
+	var out []ast.Stmt
+	for i := 0; i < len(list); i++ {
+		if i+2 < len(list) {
+			def, ok1 := list[i].(*ast.AssignStmt)
+			fs, ok2 := list[i+1].(*ast.ForStmt)
+			chk, ok3 := list[i+2].(*ast.IfStmt)
+			if ok1 && ok2 && ok3 && def.Tok == token.DEFINE && len(def.Lhs) == 1 && fs.Init == nil && fs.Cond != nil && chk.Else == nil && chk.Init == nil {
+				shift := info.ObjectOf(def.Lhs[0].(*ast.Ident))
+				cond, okc := ast.Unparen(fs.Cond).(*ast.BinaryExpr)
+				cc, okk := ast.Unparen(chk.Cond).(*ast.BinaryExpr)
+				if shift != nil && okc && okk && cond.Op == token.LSS && w.is(cond.X, shift) && cc.Op == token.GEQ && w.is(cc.X, shift) {
+					k1, a := constInt(info, cond.Y)
+					k2, b := constInt(info, cc.Y)
+					usedLater := false
+					for _, later := range list[i+3:] {
+						ast.Inspect(later, func(n ast.Node) bool {
+							if id, ok := n.(*ast.Ident); ok && info.ObjectOf(id) == shift {
+								usedLater = true
+							}
+							return true
+						})
+					}
+					if a && b && k1 == 64 && k2 == 64 && !usedLater {
+						body := append([]ast.Stmt{chk}, fs.Body.List...)
+						out = append(out, &ast.ForStmt{For: fs.For, Init: def, Post: fs.Post, Body: &ast.BlockStmt{Lbrace: fs.Body.Lbrace, List: body, Rbrace: fs.Body.Rbrace}})
+						i += 2
+						continue
+					}
+				}
+			}
+		}
+		out = append(out, list[i])
+	}
+	return out
+}
+
 func (w *decWalker) stmts(list []ast.Stmt) error {
 	info := w.info
+	list = w.normVarint(list)
 	for i := 0; i < len(list); i++ {
 		s := list[i]
 		switch t := s.(type) {
@@ -925,6 +972,39 @@ func (w *decWalker) assign(t *ast.AssignStmt, list []ast.Stmt, i *int) error {
 						}
 					}
 				}
+				if !okPre && *i+2 < len(list) {
+					// the same three tests with the sign tests combined after the addition:
+					//   post := idx + L; if L < 0 || post < 0 { return error }; if post > l { return error }
+					// (nothing uses post before both sign tests have passed)
+					g1, ok1 := list[*i+1].(*ast.IfStmt)
+					g2, ok2 := list[*i+2].(*ast.IfStmt)
+					if ok1 && ok2 && g1.Else == nil && g2.Else == nil && g1.Init == nil && g2.Init == nil && w.isErrRet(g1.Body) && w.isErrRet(g2.Body) {
+						or, isOr := ast.Unparen(g1.Cond).(*ast.BinaryExpr)
+						c2, isC2 := ast.Unparen(g2.Cond).(*ast.BinaryExpr)
+						if isOr && isC2 && or.Op == token.LOR && c2.Op == token.GTR && w.is(c2.X, postObj) && w.is(c2.Y, w.lVar) {
+							neg := func(x ast.Expr, isLen bool) bool {
+								c, ok := ast.Unparen(x).(*ast.BinaryExpr)
+								if !ok || c.Op != token.LSS || !isZero(info, c.Y) {
+									return false
+								}
+								if isLen {
+									return types.ExprString(c.X) == types.ExprString(be.Y)
+								}
+								return w.is(c.X, postObj)
+							}
+							if (neg(or.X, true) && neg(or.Y, false)) || (neg(or.X, false) && neg(or.Y, true)) {
+								if st := info.TypeOf(be.Y); st == nil || basicKind(st) != types.Int {
+									return und("length operand %s is not an int", types.ExprString(be.Y))
+								}
+								w.lenTerm = lt
+								w.post = postObj
+								w.atStart = true
+								*i += 2
+								return nil
+							}
+						}
+					}
+				}
 				if !okPre {
 					return fmt.Errorf("payload end %s = cursor + %s is computed without the preceding `if %s < 0 { return error }` guard: a negative length moves the cursor backwards", postObj.Name(), types.ExprString(be.Y), types.ExprString(be.Y))
 				}
@@ -1043,7 +1123,7 @@ func (w *decWalker) innerLoop(fs *ast.ForStmt) error {
 // mapEntryLoop interprets the entry sub-loop.
 func (w *decWalker) mapEntryLoop(fs *ast.ForStmt) error {
 	info := w.info
-	body := fs.Body.List
+	body := w.normVarint(fs.Body.List)
 	entryPre := info.ObjectOf(body[0].(*ast.AssignStmt).Lhs[0].(*ast.Ident))
 	entryPost := w.post
 	if len(body) != 5 {
@@ -1073,7 +1153,14 @@ func (w *decWalker) mapEntryLoop(fs *ast.ForStmt) error {
 	}
 	chain, ok := body[4].(*ast.IfStmt)
 	if !ok {
-		return und("map entry loop: dispatch")
+		// `switch fieldNum { case 1: … case 2: … default: … }` is the same dispatch, provided no arm leaves it
+		// with an unlabelled break (which would end the switch there, but the entry loop in the if-chain form)
+		if sw, isSw := body[4].(*ast.SwitchStmt); isSw && sw.Init == nil && sw.Tag != nil && w.is(sw.Tag, fnum) {
+			chain = switchToIfChain(sw)
+		}
+		if chain == nil {
+			return und("map entry loop: dispatch")
+		}
 	}
 	// all locals declared outside the loop have an unknown value on re-entry
 	outer := map[types.Object]string{}
@@ -1354,7 +1441,7 @@ func extractUnmarshal(m *model.Msg) (*decModel, error) {
 		dm.Problems = append(dm.Problems, "epilogue is not `if iNdEx > l { return …, io.ErrUnexpectedEOF }; return …, nil`")
 	}
 	// loop body: preIndex := idx; var wire; varint; fieldNum; wireType; guards; switch
-	lb := loop.Body.List
+	lb := w.normVarint(loop.Body.List)
 	bi := 0
 	next := func() ast.Stmt {
 		if bi < len(lb) {
@@ -1459,7 +1546,13 @@ func (w *decWalker) arm(body []ast.Stmt, arm *decArm) error {
 	}
 	first, ok := body[0].(*ast.IfStmt)
 	if !ok {
-		return fmt.Errorf("the arm does not start with a wire-type test")
+		// form B written as `switch wireType { case K: … case 2: … default: return err }`
+		if sw, isSw := body[0].(*ast.SwitchStmt); isSw && sw.Init == nil && sw.Tag != nil && w.is(sw.Tag, w.wt) {
+			first = switchToIfChain(sw)
+		}
+		if first == nil {
+			return fmt.Errorf("the arm does not start with a wire-type test")
+		}
 	}
 	// form A: if wireType != K { return err } ; rest
 	if be, ok := first.Cond.(*ast.BinaryExpr); ok && be.Op == token.NEQ && w.is(be.X, w.wt) && first.Else == nil {
@@ -1592,4 +1685,56 @@ func (w *decWalker) unknownArm(cc *ast.CaseClause) *unkSummary {
 	}
 	u.OK = true
 	return u
+}
+
+// switchToIfChain rewrites `switch tag { case k: … default: … }` (single constant per case, no fallthrough, no
+// unlabelled break belonging to the switch) into `if tag == k {…} else if … else {…}`; nil when it does not apply.
+func switchToIfChain(sw *ast.SwitchStmt) *ast.IfStmt {
+	var deflt *ast.CaseClause
+	var cases []*ast.CaseClause
+	for _, cs := range sw.Body.List {
+		cc := cs.(*ast.CaseClause)
+		if cc.List == nil {
+			deflt = cc
+			continue
+		}
+		if len(cc.List) != 1 {
+			return nil
+		}
+		cases = append(cases, cc)
+	}
+	bad := false
+	var scan func(n ast.Node)
+	scan = func(n ast.Node) {
+		ast.Inspect(n, func(x ast.Node) bool {
+			switch t := x.(type) {
+			case *ast.ForStmt, *ast.RangeStmt, *ast.SwitchStmt, *ast.TypeSwitchStmt, *ast.SelectStmt, *ast.FuncLit:
+				return false // a break inside belongs to that statement
+			case *ast.BranchStmt:
+				if (t.Tok == token.BREAK && t.Label == nil) || t.Tok == token.FALLTHROUGH || t.Tok == token.GOTO {
+					bad = true
+				}
+			}
+			return true
+		})
+	}
+	for _, cs := range sw.Body.List {
+		for _, st := range cs.(*ast.CaseClause).Body {
+			scan(st)
+		}
+	}
+	if bad || len(cases) == 0 {
+		return nil
+	}
+	var tail ast.Stmt
+	if deflt != nil {
+		tail = &ast.BlockStmt{List: deflt.Body}
+	}
+	var head *ast.IfStmt
+	for i := len(cases) - 1; i >= 0; i-- {
+		cc := cases[i]
+		head = &ast.IfStmt{If: cc.Pos(), Cond: &ast.BinaryExpr{X: sw.Tag, Op: token.EQL, Y: cc.List[0]}, Body: &ast.BlockStmt{List: cc.Body}, Else: tail}
+		tail = head
+	}
+	return head
 }
